@@ -945,7 +945,9 @@ def main():
                       'file streams (>= 256) are not generated; console only',
                       'proved part (Properties_C01.v): for expressions (literals, globals, locals, value formals, + - = < ~ and or, spills, subscripts a[e] of global arrays '
                       'and of array formals with constant or computed index) and statements (skip stop return if while sequence assignment, assignment to an array element a[e1] := e2, exit put, '
-                      'and get as the whole right-hand side of an assignment or value of a return: console input, 255 at the end of the input; the input consumed is part of the proved behaviour) '
+                      'and get: console input, 255 at the end of the input; the input consumed is part of the proved behaviour; function calls and get may be the whole right-hand side of an assignment, '
+                      'the whole value of a return or the whole condition of an if / while, or stand at the bottom of the LEFT spine of such an expression under + - = < ~ with simple right operands '
+                      '(literals, variables): xcmp computes the left operand first, as XSem does) '
                       'of the form the code generator reads (after XConstProp.front), '
                       'the code of the model cg/cs run on Isa.run shows the behaviour XSem gives (C01_expr_fragment_partial, C01_stmt_fragment_partial); '
                       'and for procedure-call statements, and function calls as the whole right-hand side of an assignment or the whole value of a return, '
@@ -957,6 +959,8 @@ def main():
                       'and END TO END for whole programs of the fragment: XSem.run p inp = Behaviour b and model_compile frames false p = Some img imply that the ISA booted on img '
                       'shows b (C01_program_partial = C01_full for the model compile function; model_compile = the model code generator + the assembler model + a built-in computable '
                       'validation of the image; its input is the output of XConstProp.front; frame numbers and the order of the constant pool are parameters read off xcmp\'s listing); '
+                      'and from the SOURCE program (C01_source_program_partial): composed with the front-end theorem of C07 (CreateSymbols, ConstProp, OptimiseExpr preserve XSem.run under the decidable '
+                      'side conditions names_ok and front_swap_safe, within a quarter of the default fuel), shown non-vacuous on the demo\'s source itself; '
                       'the model is tied to the real xcmp on generated procedures (fragment_model_tie: identical code up to label names, incl. prologue, epilogue and peepholes) '
                       'and on generated whole programs (program_model_tie: the image words of model_compile with the peephole pass are compared with the real binary; the validated '
                       'lowered image of the same program must exist, and both images are run on the extracted ISA: where XSem says Behaviour both must show exactly it; '
@@ -964,8 +968,9 @@ def main():
                       'the three peephole rules are proved to preserve the effect of the block they rewrite (C01_peephole_rule1/2/3_partial) and to be all the pass applies (C01_peephole_rewrites); '
                       'global arrays are laid out by model_compile as xcmp does (cells at the top of memory, the name\'s data word holds their address) and, like array formals, are part of '
                       'the end-to-end theorem (the demo passes a global array to a recursive procedure through an array formal); '
-                      'NOT proved: calls (and get) inside operands and actuals, proc/func formals, string literals as array actuals, local arrays (XSem rejects them), shadowing of globals, strings, input from file streams (Unsupported in XSem), '
-                      'that XConstProp.front preserves behaviour for whole programs, and that the peephole pass does for whole images (the proved image is the lowered one) '
+                      'NOT proved: calls (and get) in a right operand, under and / or / unary minus, in subscripts and as actuals, proc/func formals, string literals as array actuals, local arrays (XSem rejects them), shadowing of globals, strings, input from file streams (Unsupported in XSem), '
+                      'source programs outside front_swap_safe (> / <= with two non-constant operands one of which contains a call, constant subexpressions topped by ~= >= > <=, unary minus of a non-constant '
+                      'operand, the call 4294967295(..)), and that the peephole pass preserves behaviour for whole images (the proved image is the lowered one) '
                       '-- decided per program by this check']
     if os.path.exists(os.path.join(vlib.COQ, 'Properties_%s.v' % PID)):
         ok = ck.proofs()
